@@ -11,6 +11,7 @@
   `sorted` on tuples of `str` is code-point lexicographic (`pairLe`), realised by `mergeSort`.
 -/
 import WS.Base.Py
+import WS.Gen.Tables
 namespace WS.Model.Cookie
 open WS.Py
 
@@ -54,7 +55,9 @@ def addStep (all : Cookie) (jar : Jar) (m : Morsel) : Jar :=
   if m.domain.isEmpty then jar                       -- `if domain := v.get("domain")`
   else
     let domain := lower (dotted m.domain)
-    dictSet jar domain (update (getOrNew jar domain) all)
+    -- repaired: looked up under the lower-cased key; before: under the key as written
+    let lookupKey := if Gen.cookieLookupLowered then domain else dotted m.domain
+    dictSet jar domain (update (getOrNew jar lookupKey) all)
 
 /-- `SimpleCookieJar.add(set_cookie)` on the parsed `set_cookie`. -/
 def add (jar : Jar) (ms : List Morsel) : Jar := ms.foldl (addStep (cookieOf ms)) jar
@@ -87,8 +90,12 @@ def getPairs (jar : Jar) (host : Str) : List (Str × Str) :=
 def renderPairs (pairs : List (Str × Str)) : Str :=
   joinStr "; ".toList (pairs.map fun nv => nv.1 ++ '=' :: nv.2)
 
-/-- `SimpleCookieJar.get(host)` -/
-def get (jar : Jar) (host : Str) : Str := renderPairs (getPairs jar host)
+/-- `SimpleCookieJar.get(host)`: repaired — sorts the `(k, value)` pairs; before — sorted the
+    rendered `k=value` strings (generated shape fact). -/
+def get (jar : Jar) (host : Str) : Str :=
+  if Gen.cookieSortsPairs then renderPairs (getPairs jar host)
+  else if host.isEmpty then []
+  else joinStr "; ".toList (((collected jar host).map fun nv => nv.1 ++ '=' :: nv.2).mergeSort strLe)
 
 /-- `"; ".join(filter(None, [server_cookie, client_cookie]))`; "" = no Cookie header. -/
 def cookieHeader (jar : Jar) (host : Str) (client : Str) : Str :=
